@@ -49,6 +49,7 @@ class deferring_chunked_producer:
             if data is NOT_DONE_YET:
                 return NOT_DONE_YET
             elif data:
+                data = as_bytes(data)
                 s = '%x' % len(data)
                 return as_bytes(s) + b'\r\n' + data + b'\r\n'
             else:
